@@ -93,15 +93,11 @@ func TxSizeForFee(tx Transaction) (int, error) {
 	}
 	fullSize := len(cborData)
 	if tx.Type() >= txTypeAlonzo {
-		dec, err := cbor.NewStreamDecoder(cborData)
-		if err == nil {
-			arrayLen, _, _, decodeErr := dec.DecodeArrayHeader()
-			if decodeErr == nil {
-				if arrayLen == 4 {
-					return fullSize - 1, nil
-				}
-				return fullSize, nil
-			}
+		// Count the envelope's elements whatever form its array head has
+		// (minimal, non-minimal or indefinite length)
+		if arrayLen, err := cbor.ListLength(cborData); err == nil &&
+			arrayLen == 4 {
+			return fullSize - 1, nil
 		}
 		return fullSize, nil
 	}
